@@ -1,7 +1,7 @@
 """C09 — the bank ledger conserves coins and never overdraws: decided structural clauses (DESIGN.md §5 C09)."""
 from vlib import q
 from vlib.cfg import cfg_of
-from vlib.prov import peel, fmt, is_param, contains, alts, deep_peel, same_origin, is_param_field
+from vlib.prov import peel, fmt, is_param, contains, alts, deep_peel, same_origin, is_param_field, just
 
 LEVEL = "other"
 LEVEL_TEXT = (
@@ -264,7 +264,7 @@ def r5(ctx, cfg):
             ok = st_ok and ad[0] == "ok" and contains(ad[1], lambda x: x[0] == "call" and x[1].endswith("Api::addr_validate") and
                                                       contains(x[2][1], lambda y: is_param_field(y, "request", "address")))
         else:
-            ok = st_ok and contains(a[2], lambda y: is_param_field(y, "request", "denom"))
+            ok = st_ok and just(a[2], lambda y: is_param_field(y, "request", "denom"))
         ctx.ob(R, QUERY, "%s-reads-ledger-of-queried-account" % (arm[0] if arm else "?"), ok and len(arm) == 1 and arms.get(arm[0]) == k,
                "query arm %s calls %s(%s)" % (arm, k, ", ".join(fmt(x)[:50] for x in a[1:])), fn=f, line=t["line"],
                sample="%s -> %s(bank view, validated address)" % (arm, k.rsplit("::", 1)[1]))
@@ -397,7 +397,7 @@ def r6(ctx, cfg):
             a = P.call_args(f, t, bid)
             st_ok = peel(a[1])[0] == "call" and peel(a[1])[1] == "prefixed_storage::prefixed"
             if k == B + "send":
-                ok = arm == ["Send"] and is_param(a[2], "sender") and contains(a[3], lambda y: is_param_field(y, "msg", "to_address")) and \
+                ok = arm == ["Send"] and is_param(a[2], "sender") and just(a[3], lambda y: is_param_field(y, "msg", "to_address")) and \
                     is_param_field(a[4], "msg", "amount")
                 want = "Send -> send(sender, to_address, amount)"
             elif k == B + "burn":
